@@ -285,7 +285,10 @@ let parse_state line : tstate =
   ignore (str t);
   let last = if t.v.(t.i) = "-" then (t.i <- t.i + 1; None) else Some (mk_elem t) in
   ignore (str t);
-  let rd () = if t.v.(t.i) = "-" then (t.i <- t.i + 1; None) else (let a = num t in let b = num t in Some (pt a b)) in
+  (* a negative coordinate reported as known is never true of a terminal: keep it
+     out of range instead of clamping it to 0 *)
+  let far x = if x < 0 then 1073741823 else x in
+  let rd () = if t.v.(t.i) = "-" then (t.i <- t.i + 1; None) else (let a = num t in let b = num t in Some (pt (far a) (far b))) in
   let c = rd () in ignore (str t);
   let s = rd () in ignore (str t);
   let vis = match str t with "1" -> Some true | "0" -> Some false | _ -> None in
@@ -316,12 +319,12 @@ let oracle_mode () =
       let ct = !(Hashtbl.find wf id) in
       (* histories outside the hypotheses of the terminal-based theorems
          (non-displayable glyphs, positions outside the declared size, ...) are
-         still judged on clause 1301, which needs no reference terminal: the
-         C13 theorems hold for every state *)
+         still judged on clause 1301 and 802, which need no reference terminal:
+         the C13 theorems and C08_forgets_on_resize hold for every state *)
       List.iter (fun (name, wm, af, v0) ->
         let cfg = { wrap = wm; bce = true; unicode_all = beh.b_unicode_all } in
         let fails = oracle_run cfg beh af ct v0 h in
-        let fails = if ct then fails else List.filter (fun (_, c) -> int_of_n c = 1301) fails in
+        let fails = if ct then fails else List.filter (fun (_, c) -> int_of_n c = 1301 || int_of_n c = 802) fails in
         let fails = if ct || name = "deferred/keep/clean" then fails else [] in
         List.iter (fun (i, c) ->
           (* D7 (known finding): on a terminal that wraps immediately, a draw
